@@ -231,6 +231,20 @@ func init() {
 		}})
 	reg(textType(25, "text"))
 	reg(textType(1043, "varchar"))
+	// jsonb: a document given as its text; the binary format is a version byte (1) in front of the text
+	reg(&TypeInfo{OID: 3802, Name: "jsonb",
+		Gen: func(r *rand.Rand) (any, string) {
+			docs := []string{`{"name": "x", "n": %d}`, `[%d, 2, 3]`, `%d`, `{"a": {"b": [true, null, %d]}}`, `"text %d"`}
+			d := fmt.Sprintf(docs[r.Intn(len(docs))], r.Intn(100000))
+			return d, d
+		},
+		Text: func(b []byte) (string, bool) { return string(b), true },
+		Binary: func(b []byte) (string, bool) {
+			if len(b) < 1 || b[0] != 1 {
+				return "", false
+			}
+			return string(b[1:]), true
+		}})
 	reg(&TypeInfo{OID: 17, Name: "bytea",
 		Gen: func(r *rand.Rand) (any, string) {
 			n := 1 + r.Intn(64)
@@ -407,6 +421,11 @@ func DecodeCell(oid int, format int, raw []byte) (canon string, enc int) {
 
 // TypedNull returns a NULL of the given kind for the column type.
 func TypedNull(oid int, kind string) any {
+	if oid == 3802 {
+		// (for a jsonb column pgx marshals whatever it is given as a document - a nil pointer or an invalid nullable
+		// becomes the document null, which is a value: that is pgx's business; the NULL of a jsonb column is nil)
+		return nil
+	}
 	switch kind {
 	case "ptr":
 		switch oid {
